@@ -178,7 +178,15 @@ def apply(F, S):
 
 def run(tier, repo=None, tag="repo"):
     rep = Report("C06", tier)
-    F = ir.load("serde", repo, tag)
+    from extract import ExtractError
+    try:
+        F = ir.load("serde", repo, tag)
+    except ExtractError as e:
+        for rid, text, floor in RULES:
+            rep.rule(rid, text, 0)
+        rep.violation("C06:serde-build", "Z1", "the crate does not build with --features serde, so not every indicator is Serialize + Deserialize: %s" % str(e)[-600:], where="cargo check --features serde")
+        rep.explanation = "serde configuration failed to build"
+        return rep
     for rid, text, floor in RULES:
         rep.rule(rid, text, floor)
     names = apply(F, Sink(rep))
